@@ -120,6 +120,9 @@ func GetIntegityHash(iv, c, key []byte, usage uint32, e etype.EType) ([]byte, er
 
 // VerifyIntegrity verifies the integrity of cipertext bytes ct.
 func VerifyIntegrity(key, ct []byte, usage uint32, etype etype.EType) bool {
+	if len(ct) < etype.GetHMACBitLength()/8 {
+		return false
+	}
 	h := make([]byte, etype.GetHMACBitLength()/8)
 	copy(h, ct[len(ct)-etype.GetHMACBitLength()/8:])
 	ivz := make([]byte, etype.GetConfounderByteSize())
